@@ -704,3 +704,225 @@ theorem toWtf8_provided (z : Bool) (src : List Nat) (hu : Units src) (n : Nat)
   · cases z <;> simp [he]
   · cases z <;> simp [he]
 end UvModel.Wtf8
+
+/-! ### ASCII labels, the `xn--` prefix, whole-string decoding -/
+namespace UvModel.Puny
+open UvModel.Utf8
+
+theorem decodeAll_ascii (l : List Nat) (h : ∀ x ∈ l, x < 128) : decodeAll l = some l := by
+  induction l with
+  | nil => rw [decodeAll]
+  | cons a r ih =>
+    have ha : a < 128 := h a (by simp)
+    rw [decodeAll]
+    simp only [decode1, if_pos ha, Nat.sub_self, List.drop_zero]
+    rw [ih (fun x hx => h x (by simp [hx]))]; rfl
+
+theorem u32_lt128 (a : Nat) (h : a < 128) : a.toUInt32 < 128 := by
+  rw [UInt32.lt_iff_toNat_lt]
+  simp only [Nat.toUInt32, UInt32.toNat_ofNat']
+  show a % 4294967296 < 128
+  omega
+
+/-- the label is all ASCII (as code points) -/
+def AsciiCps (cps : List UInt32) : Prop := ∀ c ∈ cps, c < 128
+
+theorem countLoop_ascii (cps : List UInt32) (hc : AsciiCps cps) (h todo : UInt32) :
+    countLoop cps h todo = (h + UInt32.ofNat cps.length, todo) := by
+  induction cps generalizing h with
+  | nil => simp [countLoop]
+  | cons c cs ih =>
+    rw [countLoop, if_pos (hc c (by simp)), ih (fun x hx => hc x (by simp [hx]))]
+    congr 1
+    apply UInt32.toNat_inj.mp
+    simp only [UInt32.toNat_add, UInt32.toNat_ofNat', List.length_cons, UInt32.toNat_one]
+    omega
+
+/-- `n` guarded stores -/
+def putAll (b : Buf) (l : List Nat) : Buf := l.foldl Buf.put b
+
+theorem writeAscii_ascii (cs : List UInt32) (hc : AsciiCps cs) (x h : UInt32) (b : Buf)
+    (hh : h.toNat = x.toNat + cs.length) (hlt : x.toNat + cs.length < 4294967296) :
+    writeAscii cs x h b = putAll b (cs.map UInt32.toNat) := by
+  induction cs generalizing x b with
+  | nil => rfl
+  | cons c cs ih =>
+    have hc1 : ¬ c > 127 := by
+      have := hc c (by simp)
+      rw [UInt32.lt_iff_toNat_lt] at this
+      rw [gt_iff_lt, UInt32.lt_iff_toNat_lt]
+      have e1 : (128 : UInt32).toNat = 128 := rfl
+      have e2 : (127 : UInt32).toNat = 127 := rfl
+      omega
+    rw [writeAscii, if_neg hc1]
+    simp only [List.length_cons] at hh hlt
+    have hx1 : (x + 1).toNat = x.toNat + 1 := by
+      rw [UInt32.toNat_add, UInt32.toNat_one]; omega
+    simp only []
+    by_cases he : x + 1 = h
+    · rw [if_pos he]
+      have : cs = [] := by
+        have := congrArg UInt32.toNat he
+        rw [hx1, hh] at this
+        exact List.eq_nil_of_length_eq_zero (by omega)
+      subst this; rfl
+    · rw [if_neg he, ih (fun y hy => hc y (by simp [hy])) (x + 1) (b.put c.toNat) (by omega) (by omega)]
+      rfl
+
+theorem map_toNat_toUInt32 (l : List Nat) (h : ∀ x ∈ l, x < 128) :
+    (l.map Nat.toUInt32).map UInt32.toNat = l := by
+  induction l with
+  | nil => rfl
+  | cons a r ih =>
+    have ha := h a (by simp)
+    simp only [List.map_cons, ih (fun x hx => h x (by simp [hx]))]
+    congr 1
+    simp only [Nat.toUInt32, UInt32.toNat_ofNat']
+    show a % 4294967296 = a
+    omega
+
+/-- an all-ASCII label is copied unchanged (through the guarded stores), no "xn--", result = length -/
+theorem label_ascii (bytes : List Nat) (b : Buf) (h : ∀ x ∈ bytes, x < 128)
+    (hlen : bytes.length < 4294967296) :
+    label bytes b = ((bytes.length : Int), putAll b bytes) := by
+  have hc : AsciiCps (bytes.map Nat.toUInt32) := by
+    intro c hcm
+    obtain ⟨a, ha, rfl⟩ := List.mem_map.mp hcm
+    exact u32_lt128 a (h a ha)
+  unfold label
+  rw [decodeAll_ascii bytes h]
+  simp only [countLoop_ascii _ hc, List.length_map]
+  have h0 : (0 : UInt32) + UInt32.ofNat bytes.length = UInt32.ofNat bytes.length := by
+    apply UInt32.toNat_inj.mp; simp
+  have hn : (UInt32.ofNat bytes.length).toNat = bytes.length := by
+    rw [UInt32.toNat_ofNat']; show bytes.length % 4294967296 = _; omega
+  rw [h0, if_pos trivial, if_neg (by decide), hn,
+    writeAscii_ascii _ hc 0 _ b (by rw [hn]; simp) (by simpa using hlen), map_toNat_toUInt32 bytes h]
+
+theorem putAll_fits (l : List Nat) (b : Buf) (h : b.out.length + l.length ≤ b.cap) :
+    (putAll b l).out = b.out ++ l ∧ (putAll b l).cap = b.cap := by
+  induction l generalizing b with
+  | nil => simp [putAll]
+  | cons a r ih =>
+    simp only [List.length_cons] at h
+    have hp : b.put a = { b with out := b.out ++ [a] } := by
+      unfold Buf.put; rw [if_pos (by omega)]
+    have := ih (b.put a) (by rw [hp]; simp; omega)
+    simp only [putAll, List.foldl_cons] at this ⊢
+    rw [this.1, this.2, hp]; simp
+end UvModel.Puny
+
+namespace UvModel.Utf8
+set_option linter.unusedSimpArgs false
+
+theorem spec_le (l : List Nat) (hl : Bytes l) (v n : Nat) (h : spec l = some (v, n)) : v ≤ 0x10FFFF := by
+  match l, hl with
+  | [], _ => simp [spec] at h
+  | a :: rest, hl =>
+    have ha := hl a (by simp)
+    have := lo2_cases a; have := hi2_cases a
+    simp only [spec, isCont] at h
+    repeat' split at h
+    all_goals (simp only [Option.some.injEq, Prod.mk.injEq, reduceCtorEq] at h)
+    all_goals (obtain ⟨rfl, rfl⟩ := h)
+    all_goals omega
+
+/-- `uv__utf8_decode1` against Table 3-7, both directions -/
+theorem decode1_iff_spec (l : List Nat) (hl : Bytes l) (v n : Nat) :
+    decode1 l = (some v, n) ↔ spec l = some (v, n) := by
+  rw [decode1_eq_A l hl]
+  match l, hl with
+  | [], _ => simp [spec, decode1A]
+  | [a], hl =>
+    exact ⟨spec_of_A_1 a v n (hl a (by simp)), A_of_spec_1 a v n (hl a (by simp))⟩
+  | [a, b], hl =>
+    exact ⟨spec_of_A_2 a b v n (hl a (by simp)) (hl b (by simp)),
+           A_of_spec_2 a b v n (hl a (by simp)) (hl b (by simp))⟩
+  | [a, b, c], hl =>
+    exact ⟨spec_of_A_3 a b c v n (hl a (by simp)) (hl b (by simp)) (hl c (by simp)),
+           A_of_spec_3 a b c v n (hl a (by simp)) (hl b (by simp)) (hl c (by simp))⟩
+  | a :: b :: c :: d :: r, hl =>
+    exact ⟨spec_of_A_4 a b c d v n r (hl a (by simp)) (hl b (by simp)) (hl c (by simp)) (hl d (by simp)),
+           A_of_spec_4 a b c d v n r (hl a (by simp)) (hl b (by simp)) (hl c (by simp)) (hl d (by simp))⟩
+
+/-- the loops of idna.c decode a whole string exactly as the specification decoder does -/
+theorem decodeAll_eq_specAll (l : List Nat) (hl : Bytes l) : decodeAll l = specAll l := by
+  fun_induction decodeAll l with
+  | case1 => rw [specAll]
+  | case2 a rest v n hd ih =>
+    rw [specAll, (decode1_iff_spec _ hl v n).mp hd]
+    simp only [ih (Puny.bytes_drop (bytes_cons hl).2 _)]
+  | case3 a rest n hd =>
+    cases hs : spec (a :: rest) with
+    | none => rw [specAll, hs]
+    | some p =>
+      have := (decode1_iff_spec _ hl p.1 p.2).mpr hs
+      rw [hd] at this; cases this
+
+theorem specAll_le (l : List Nat) (hl : Bytes l) (vs : List Nat) (h : specAll l = some vs) :
+    ∀ v ∈ vs, v ≤ 0x10FFFF := by
+  fun_induction specAll l generalizing vs with
+  | case1 => simp at h; subst h; simp
+  | case2 a rest v n hs ih =>
+    simp only [Option.map_eq_some_iff] at h
+    obtain ⟨vs', h1, rfl⟩ := h
+    intro x hx
+    rcases List.mem_cons.mp hx with rfl | hx
+    · exact spec_le _ hl _ n hs
+    · exact ih (Puny.bytes_drop (bytes_cons hl).2 _) vs' h1 x hx
+  | case3 a rest hs => simp at h
+end UvModel.Utf8
+
+namespace UvModel.Puny
+open UvModel.Utf8
+
+theorem countLoop_todo (cps : List UInt32) (h todo : UInt32)
+    (hlt : todo.toNat + cps.length < 4294967296) :
+    (countLoop cps h todo).2.toNat = todo.toNat + cps.countP (fun c => decide (¬ c < 128)) := by
+  induction cps generalizing h todo with
+  | nil => simp [countLoop]
+  | cons c cs ih =>
+    simp only [List.length_cons] at hlt
+    rw [countLoop]
+    by_cases hc : c < 128
+    · rw [if_pos hc, ih _ _ (by omega), List.countP_cons_of_neg (by simpa using hc)]
+    · have h1 : (todo + 1).toNat = todo.toNat + 1 := by
+        rw [UInt32.toNat_add, UInt32.toNat_one]; omega
+      rw [if_neg hc, ih _ _ (by omega), List.countP_cons_of_pos (by simpa using hc), h1]; omega
+
+/-- `toascii_prefix_iff_nonascii`, the "if" half: a label that is well-formed UTF-8 and contains a
+    non-ASCII code point gets the four bytes "xn--" stored first (as far as the destination has
+    room), whatever happens afterwards. -/
+theorem label_prefix (bytes : List Nat) (b : Buf) (hb : Bytes bytes) (vs : List Nat)
+    (hs : specAll bytes = some vs) (hn : ∃ v ∈ vs, 128 ≤ v) (hlen : vs.length < 4294967296) :
+    ((((b.put 120).put 110).put 45).put 45).out <+: (label bytes b).2.out := by
+  have hle := specAll_le bytes hb vs hs
+  unfold label
+  rw [decodeAll_eq_specAll bytes hb, hs]
+  simp only []
+  generalize hcl : countLoop (vs.map Nat.toUInt32) 0 0 = p
+  obtain ⟨h, todo⟩ := p
+  have htodo : todo > 0 := by
+    have := countLoop_todo (vs.map Nat.toUInt32) 0 0 (by simpa using hlen)
+    rw [hcl] at this
+    obtain ⟨v, hv, hv128⟩ := hn
+    have hpos : 0 < (vs.map Nat.toUInt32).countP (fun c => decide (¬ c < 128)) := by
+      apply List.countP_pos_iff.mpr
+      refine ⟨v.toUInt32, List.mem_map.mpr ⟨v, hv, rfl⟩, ?_⟩
+      have := hle v hv
+      simp only [decide_eq_true_eq, UInt32.lt_iff_toNat_lt, Nat.toUInt32, UInt32.toNat_ofNat']
+      show ¬ v % 4294967296 < 128
+      omega
+    rw [gt_iff_lt, UInt32.lt_iff_toNat_lt]
+    simp only [] at this
+    show (0 : UInt32).toNat < todo.toNat
+    have h00 : (0 : UInt32).toNat = 0 := rfl
+    rw [this]; omega
+  simp only [if_pos htodo]
+  have hw := writeAscii_ext (vs.map Nat.toUInt32) 0 h ((((b.put 120).put 110).put 45).put 45)
+  split
+  · exact hw.2.1
+  · split
+    · exact (hw.trans ((ext_put _ _).trans (outer_ext _ _ _ _))).2.1
+    · exact (hw.trans (outer_ext _ _ _ _)).2.1
+end UvModel.Puny
